@@ -143,7 +143,7 @@ def run_scenario(chk, sc, cfgseed, axes, serial, fields):
     before = alpha.tree_digest(d)
     out = os.path.join(os.path.dirname(d), "slice2d")
     try:
-        with shims.pool_shim(shims.Scheduler(default="random", rng=random.Random(cfgseed))), shims.poison(SENTINEL), core.quiet():
+        with shims.pool_shim(shims.Scheduler(default="random", rng=random.Random(cfgseed))), shims.poison([SENTINEL, -SENTINEL, float("nan")][cfgseed % 3]), core.quiet():
             Mandoline(d, fields=list(fields), limit_level=sc["lim"], serial=serial, verbose=0).slice(
                 normal=cn, pos=pos, outfile=out, fformat="plotfile")
     except Exception as e:
